@@ -897,6 +897,11 @@ class Session:
                 resp = self._hcall(h, {"op": "w_write", "data": spec, "all": st.get("all", True)})
             if not resp.get("ok") and resp.get("err", {}).get("variant") == "Driver":
                 raise ToolError("driver error: %r" % resp)
+            if "panic" in resp or "died" in resp or resp.get("hang"):
+                # WHAT such a write reports is free; THAT it returns is not (C20): a panic, a
+                # dead process or a hang is recorded as the result of this call, and no action of
+                # the trace specification produces it
+                return {"op": "w_write", "h": h, "len": len(data), "all": True}, resp, None
             return None, resp, {"ok": bool(resp.get("ok")), "v": "unknown"}
         if st.get("copy_step"):
             # the chunk arrives through io::copy from a reader that delivers copy_step bytes per read
@@ -1453,6 +1458,10 @@ def _damage(data, st):
         i = 1 + st["index"] % (len(lines) - 1)
         lines[i] = lines[i] + bytes.fromhex(st["bytes"])
         return b"\n".join(lines)
+    if mode == "dos":
+        # the whole bucket with DOS line endings and a final terminator (an editor, a checkout
+        # with autocrlf): every record line ends in CR LF
+        return data.replace(b"\n", b"\r\n") + b"\r\n"
     if mode == "flip_nl":
         # one bit of the index-th NEWLINE byte (the separators are bytes like any other)
         offs = [j for j, c in enumerate(data) if c == 10]
